@@ -258,8 +258,12 @@ def _fz_clamp(vals):
     return _map(clamp, vals)
 
 
+ALIASES = {"MyFuzzyOr": "FuzzyOr", "MySum": "Sum", "OnlyInX": "Copy"}   # plug-in subclasses of built-in commands
+
+
 def evaluate(cmd, args, env):
     """Evaluate one command.  args: parameter name -> JSON value; env: result name -> Res."""
+    cmd = ALIASES.get(cmd, cmd)
     g = args.get
 
     def one(name="InFieldName"):
